@@ -1175,6 +1175,124 @@ theorem annsTrue_prod (Ms : List (Op 𝕜)) (hw : (prod Ms).wf = true)
         exact holds_prod_single a M (ih M List.mem_cons_self a ha)
     · exact hinter ha
 
+/-! ### the recursion -/
+
+theorem annsTrue_of_nil {A : Op 𝕜} (h : A.anns = []) : AnnsTrue A := by
+  intro a ha
+  rw [h] at ha
+  simp at ha
+
+/-- **soundness of the annotation inference**: under the hypotheses every annotation reported
+at the root holds of the represented matrix (and `SoundHyp` is inherited by every node). -/
+theorem anns_sound : ∀ (A : Op 𝕜), SoundHyp A → AnnsTrue A
+  | dense dt r c a, _ => annsTrue_of_nil (by simp only [Op.anns])
+  | tri dt r c l a, _ => annsTrue_of_nil (by simp only [Op.anns])
+  | sparse dt r c e, _ => annsTrue_of_nil (by simp only [Op.anns])
+  | scalar dt s n, _ => annsTrue_of_nil (by simp only [Op.anns])
+  | eye dt n, _ => annsTrue_eye dt n
+  | prod Ms, h => by
+    have h3 := h.nsa
+    have h4 := h.gtr
+    simp only [Op.scalarTimesAnnotated, Bool.or_eq_false_iff] at h3
+    simp only [GramTransposeReal] at h4
+    exact annsTrue_prod Ms h.wf h3.1 h4.1 (fun M hM => anns_sound M (h.prod_mem M hM))
+  | sum Ms, h => annsTrue_sum Ms h.wf (fun M hM => anns_sound M (h.sum_mem M hM))
+  | kron Ms, h => annsTrue_kron Ms (fun M hM => anns_sound M (h.kron_mem M hM))
+  | kronsum Ms, _ => annsTrue_of_nil (by simp only [Op.anns])
+  | bdiag Ms mults, h => annsTrue_bdiag Ms mults (fun M hM => anns_sound M (h.bdiag_mem M hM))
+  | diag dt n d, _ => annsTrue_of_nil (by simp only [Op.anns])
+  | tridiag dt n al be ga, _ => annsTrue_of_nil (by simp only [Op.anns])
+  | transpose A, h => annsTrue_transpose A (anns_sound A h.transpose_child)
+  | adjoint A, h => annsTrue_adjoint A (anns_sound A h.adjoint_child)
+  | sliced A s0 s1, h => annsTrue_sliced A s0 s1 (anns_sound A h.sliced_child)
+  | perm dt p, h => annsTrue_perm dt p h.wf
+  | concat ax Ms, _ => annsTrue_of_nil (by simp only [Op.anns])
+  | house dt n v beta, _ => annsTrue_of_nil (by simp only [Op.anns])
+  | generic A, _ => annsTrue_of_nil (by simp only [Op.anns])
+  | annot b A, h => by
+    have h2 := h.leaves
+    simp only [LeavesTrue] at h2
+    exact annsTrue_annot b A h2.1 (anns_sound A h.annot_child)
+termination_by A => sizeOf A
+
+/-- a node whose reported annotations are true satisfies the `HermNode` hypothesis of C01 -/
+theorem hermNode_of_annsTrue (A : Op 𝕜) (h : AnnsTrue A) : HermNode A := by
+  intro hisa
+  simp only [Op.isa, AnnSet.isa, List.any_eq_true] at hisa
+  obtain ⟨x, hx, hsub⟩ := hisa
+  have hsa : Holds .selfAdjoint A.rows A.cols A.den.f := by
+    cases x
+    · exact h _ hx
+    · exact (h _ hx).psd_selfAdjoint
+    · simp [Ann.sub] at hsub
+    · simp [Ann.sub] at hsub
+  exact hsa.selfAdjoint_entry
+
+/-- every node of the tree that reports `SelfAdjoint` (or `PSD`) really is Hermitian -/
+theorem hermOK_of_soundHyp : ∀ (A : Op 𝕜), SoundHyp A → A.HermOK
+  | dense dt r c a, h => by
+    simp only [HermOK]; exact hermNode_of_annsTrue _ (anns_sound _ h)
+  | tri dt r c l a, h => by
+    simp only [HermOK]; exact hermNode_of_annsTrue _ (anns_sound _ h)
+  | sparse dt r c e, h => by
+    simp only [HermOK]; exact hermNode_of_annsTrue _ (anns_sound _ h)
+  | scalar dt s n, h => by
+    simp only [HermOK]; exact hermNode_of_annsTrue _ (anns_sound _ h)
+  | eye dt n, h => by
+    simp only [HermOK]; exact hermNode_of_annsTrue _ (anns_sound _ h)
+  | prod Ms, h => by
+    simp only [HermOK]
+    exact ⟨hermNode_of_annsTrue _ (anns_sound _ h),
+      fun M hM => hermOK_of_soundHyp M (h.prod_mem M hM)⟩
+  | sum Ms, h => by
+    simp only [HermOK]
+    exact ⟨hermNode_of_annsTrue _ (anns_sound _ h),
+      fun M hM => hermOK_of_soundHyp M (h.sum_mem M hM)⟩
+  | kron Ms, h => by
+    simp only [HermOK]
+    exact ⟨hermNode_of_annsTrue _ (anns_sound _ h),
+      fun M hM => hermOK_of_soundHyp M (h.kron_mem M hM)⟩
+  | kronsum Ms, h => by
+    simp only [HermOK]
+    exact ⟨hermNode_of_annsTrue _ (anns_sound _ h),
+      fun M hM => hermOK_of_soundHyp M (h.kronsum_mem M hM)⟩
+  | bdiag Ms mults, h => by
+    simp only [HermOK]
+    exact ⟨hermNode_of_annsTrue _ (anns_sound _ h),
+      fun M hM => hermOK_of_soundHyp M (h.bdiag_mem M hM)⟩
+  | diag dt n d, h => by
+    simp only [HermOK]; exact hermNode_of_annsTrue _ (anns_sound _ h)
+  | tridiag dt n al be ga, h => by
+    simp only [HermOK]; exact hermNode_of_annsTrue _ (anns_sound _ h)
+  | transpose A, h => by
+    simp only [HermOK]
+    exact ⟨hermNode_of_annsTrue _ (anns_sound _ h), hermOK_of_soundHyp A h.transpose_child⟩
+  | adjoint A, h => by
+    simp only [HermOK]
+    exact ⟨hermNode_of_annsTrue _ (anns_sound _ h), hermOK_of_soundHyp A h.adjoint_child⟩
+  | sliced A s0 s1, h => by
+    simp only [HermOK]
+    exact ⟨hermNode_of_annsTrue _ (anns_sound _ h), hermOK_of_soundHyp A h.sliced_child⟩
+  | perm dt p, h => by
+    simp only [HermOK]; exact hermNode_of_annsTrue _ (anns_sound _ h)
+  | concat ax Ms, h => by
+    simp only [HermOK]
+    exact ⟨hermNode_of_annsTrue _ (anns_sound _ h),
+      fun M hM => hermOK_of_soundHyp M (h.concat_mem M hM)⟩
+  | house dt n v beta, h => by
+    simp only [HermOK]; exact hermNode_of_annsTrue _ (anns_sound _ h)
+  | generic A, h => by
+    simp only [HermOK]
+    exact ⟨hermNode_of_annsTrue _ (anns_sound _ h), hermOK_of_soundHyp A h.generic_child⟩
+  | annot a A, h => by
+    simp only [HermOK]
+    exact ⟨hermNode_of_annsTrue _ (anns_sound _ h), hermOK_of_soundHyp A h.annot_child⟩
+termination_by A => sizeOf A
+
 end sound
 
 end Op
+
+#print axioms Op.sameObj_sound
+#print axioms Op.anns_sound
+#print axioms Op.hermOK_of_soundHyp
